@@ -21,7 +21,9 @@ pub struct Config {
 
 impl Config {
     pub fn short(&self) -> String {
-        format!("cw={} cn={} tw={} tn={} dict={:?} bucket={} solver={}", self.charw, self.charn, self.typew, self.typen, self.dict, self.bucket, self.solver)
+        // a large dictionary is named by its size (signatures stay short)
+        let dict = if self.dict.len() > 64 { format!("[{} words]", self.dict.len()) } else { format!("{:?}", self.dict) };
+        format!("cw={} cn={} tw={} tn={} dict={dict} bucket={} solver={}", self.charw, self.charn, self.typew, self.typen, self.bucket, self.solver)
     }
 }
 
